@@ -25,29 +25,37 @@ type vWalRun struct {
 	appended [][]byte
 	synced   []int // journal length right after the AppendSync of record i returned (-1: not a sync append)
 	rotates  int
+	// observations of the model file system that have no native counterpart (fsync cannot be seen through the
+	// writer seam natively); asserted last, so that a natively reproducible consequence is reported first
+	syncReached, syncEndsWithFsync bool
+}
+
+func (run *vWalRun) assertSyncs() {
+	vrt.Assert(run.syncReached, "wal/sync-append-reaches-the-file")
+	vrt.Assert(run.syncEndsWithFsync, "wal/sync-append-ends-with-fsync")
 }
 
 // vRunProgram drives the real appender with a program of Append / AppendSync / Rotate.
 func vRunProgram(fs *vrt.FS, a WriteAheadLogAppendI, steps int, maxRec int) *vWalRun {
-	run := &vWalRun{}
+	run := &vWalRun{syncReached: true, syncEndsWithFsync: true}
 	n := vrt.Range("steps", 0, steps)
 	for s := 0; s < n; s++ {
 		switch vrt.Choose(vrt.K("op", s), 3) {
 		case 0:
-			rec := vrt.Bytes(vrt.K("r", len(run.appended)), maxRec)
+			rec := vrt.BytesOrNil(vrt.K("r", len(run.appended)), maxRec)
 			vrt.Assert(a.Append(rec) == nil, "wal/append-no-error")
 			run.appended = append(run.appended, rec)
 			run.synced = append(run.synced, -1)
 		case 1:
-			rec := vrt.Bytes(vrt.K("r", len(run.appended)), maxRec)
+			rec := vrt.BytesOrNil(vrt.K("r", len(run.appended)), maxRec)
 			before := len(fs.Journal)
 			vrt.Assert(a.AppendSync(rec) == nil, "wal/append-sync-no-error")
 			run.appended = append(run.appended, rec)
 			run.synced = append(run.synced, len(fs.Journal))
 			if vrt.Symbolic() {
 				// sync append = write + flush + fsync before it returns
-				vrt.Assert(len(fs.Journal) > before, "wal/sync-append-reaches-the-file")
-				vrt.Assert(len(fs.SyncMarks) > 0 && fs.SyncMarks[len(fs.SyncMarks)-1] == len(fs.Journal), "wal/sync-append-ends-with-fsync")
+				run.syncReached = run.syncReached && len(fs.Journal) > before
+				run.syncEndsWithFsync = run.syncEndsWithFsync && len(fs.SyncMarks) > 0 && fs.SyncMarks[len(fs.SyncMarks)-1] == len(fs.Journal)
 			}
 		case 2:
 			_, err := a.Rotate()
@@ -107,6 +115,7 @@ func H_C07_Replay() {
 			vrt.Assert(vrt.EqBytes(got[i], run.appended[i]), "wal/replay-in-append-order-unchanged")
 		}
 	}
+	run.assertSyncs()
 	vrt.Trace("files", uint64(len(files)))
 	vrt.Trace("replayed", uint64(len(got)))
 	vrt.Reach("wal/end")
@@ -157,6 +166,7 @@ func H_C07_Crash() {
 			vrt.Assert(i < len(got), "walcrash/synced-append-survives-kill")
 		}
 	}
+	run.assertSyncs()
 	vrt.TraceBool("replay.err", rerr != nil)
 	vrt.Trace("replayed", uint64(len(got)))
 	vrt.Reach("walcrash/end")
